@@ -1910,6 +1910,66 @@ def unit_schedules(eng, tier, prop):
     return u.result()
 
 
+def unit_delegators(eng, tier, prop):
+    """C15 / C09: DelegateToDefaultImpl for the receiver kinds: the by-value helper IS the caller's instance (moved in and
+    moved back out, never cloned: an extra clone would be alive when the original is dropped); Rc/Arc helpers are clones
+    that share the Arc'd state; the lazily created helper of &self / &mut self is a clone of self."""
+    u = Unit(eng, "delegators", ["<Unimock as DelegateToDefaultImpl>::{to_delegator,from_delegator}", "<Rc<Unimock> ..>", "<Arc<Unimock> ..>", "<Unimock as AsRef<DefaultImplDelegator>>::as_ref", "<Unimock as Clone>::clone"],
+             "arbitrary instance state; data-flow identity of the instance / shared state through the helper")
+    fns = [f for f in eng.fns if f.module.startswith("default_impl_delegator::") and f.short in ("to_delegator", "from_delegator")]
+    by = {}
+    for f in fns:
+        key = (f.short, f.params[0][1])
+        by[key] = f
+    clone_rx = re.compile(r"^<Unimock as Clone>::clone$")
+    hs = []
+
+    def h_clone(call):
+        src = call.deref(call.argv[0], "adt")
+        call.m.event("unimock_clone", src.lazy.name if isinstance(src, Adt) and src.lazy else "?")
+        c = lazy_adt("Unimock", "clone_of_" + (src.lazy.name if isinstance(src, Adt) and src.lazy else "x"))
+        return c
+    eng.handlers.insert(0, (clone_rx, h_clone))
+    try:
+        # by value
+        td = by.get(("to_delegator", "Unimock"))
+        fd = by.get(("from_delegator", "default_impl_delegator::DefaultImplDelegator"))
+        u.must_be_true("C15.by-value-delegator-impl-found", td is not None and fd is not None, {"have": sorted(map(str, by))})
+        if td and fd:
+            inst = lazy_adt("Unimock", "the_instance")
+            paths = u.explore(td, [inst])
+            for p in paths:
+                if p.outcome[0] != "return":
+                    continue
+                d = p.outcome[1]
+                inner = [c.val for c in d.fields.values()]
+                same = len(inner) == 1 and isinstance(inner[0], Adt) and inner[0].lazy is not None and inner[0].lazy.name == "the_instance"
+                u.must_be_true("C15.by-value-helper-wraps-the-callers-instance", same and not events(p, "unimock_clone"), {"clones": events(p, "unimock_clone")})
+                paths2 = u.explore(fd, [d])
+                for q in paths2:
+                    if q.outcome[0] != "return":
+                        continue
+                    r = q.outcome[1]
+                    u.must_be_true("C15.by-value-instance-moved-back-out-not-cloned",
+                                   isinstance(r, Adt) and r.lazy is not None and r.lazy.name == "the_instance" and not events(q, "unimock_clone"),
+                                   {"returned": getattr(getattr(r, "lazy", None), "name", repr(r)[:40]), "clones": events(q, "unimock_clone")})
+            u.witness("by-value impl explored", [z3.BoolVal(bool(paths))])
+        # Rc / Arc: helpers are clones of the pointee
+        with opaque_calls(eng, [r"^<(Rc|Arc) as Deref>::deref$|^(Rc|Arc)::new$"]):
+            for kind in ("Rc", "Arc"):
+                f = next((v for k, v in by.items() if k[0] == "to_delegator" and k[1].startswith(kind + "<")), None)
+                u.must_be_true(f"C15.{kind}-delegator-impl-found", f is not None)
+                if f is None:
+                    continue
+                paths = u.explore(f, [Opaque(f.params[0][1], "rc_self")])
+                for p in paths:
+                    if p.outcome[0] == "return":
+                        u.must_be_true(f"C15.{kind}-helper-is-a-clone-sharing-the-state", len(events(p, "unimock_clone")) == 1)
+    finally:
+        eng.handlers.remove((clone_rx, h_clone))
+    return u.result()
+
+
 def unit_todo(eng, tier, prop):
     u = Unit(eng, "todo", [], "")
     u.errors.append("unit not implemented yet")
@@ -1917,12 +1977,14 @@ def unit_todo(eng, tier, prop):
 
 
 UNITS = {
+    "delegators": unit_delegators,
     "schedules": unit_schedules,
     "call_path": unit_call_path,
     "builder_chains": unit_builder_chains,
     "assembler": unit_assembler,
     "eval_dyn": unit_eval_dyn,
     "locked_closures": unit_locked_closures,
+    "eval_generic": unit_todo,
     "tuples": unit_tuples,
     "construction": unit_construction,
     "statics": unit_statics,
